@@ -203,38 +203,43 @@ func (c *Config) Parent() *Config {
 
 // FlattenedKeys return a sorted flattened views of the set keys in the configuration
 func (c *Config) FlattenedKeys(opts ...Option) []string {
-	var keys []string
 	normalizedOptions := makeOptions(opts)
 
 	if normalizedOptions.pathSep == "" {
 		normalizedOptions.pathSep = "."
 	}
 
+	return c.flattenedKeys(normalizedOptions)
+}
+
+// flattenedKeys walks the tree with one set of options, so that a reference to an
+// enclosing namespace is recognised as cyclic (and listed as a setting) instead of being
+// followed without end. Every value is resolved in its own child set of active
+// references: the same namespace may be referenced by several settings.
+func (c *Config) flattenedKeys(opts *options) []string {
+	var keys []string
+
+	visit := func(v value) {
+		parentFields := opts.activeFields
+		opts.activeFields = newFieldSet(parentFields)
+		defer func() { opts.activeFields = parentFields }()
+
+		subcfg, err := v.toConfig(opts)
+		if err != nil {
+			ctx := v.Context()
+			keys = append(keys, ctx.path(opts.pathSep))
+		} else {
+			keys = append(keys, subcfg.flattenedKeys(opts)...)
+		}
+	}
+
 	if c.IsDict() {
 		for _, v := range c.fields.dict() {
-
-			subcfg, err := v.toConfig(normalizedOptions)
-			if err != nil {
-				ctx := v.Context()
-				p := ctx.path(normalizedOptions.pathSep)
-				keys = append(keys, p)
-			} else {
-				newKeys := subcfg.FlattenedKeys(opts...)
-				keys = append(keys, newKeys...)
-			}
+			visit(v)
 		}
 	} else if c.IsArray() {
 		for _, a := range c.fields.array() {
-			scfg, err := a.toConfig(normalizedOptions)
-
-			if err != nil {
-				ctx := a.Context()
-				p := ctx.path(normalizedOptions.pathSep)
-				keys = append(keys, p)
-			} else {
-				newKeys := scfg.FlattenedKeys(opts...)
-				keys = append(keys, newKeys...)
-			}
+			visit(a)
 		}
 	}
 
